@@ -217,13 +217,15 @@ def run_sequence(seq, rng, mode="free"):
     order of the requests is forced with signal/await.  Returns [(ok, error, message, writes)]."""
     fresh_project()
     progs = {"P": [], "Q": []}
+    conductor = []
     for k, (creator, req) in enumerate(seq):
-        prog = progs[creator]
-        if k > 0:
-            prog.append({"a": "await", "key": f"done{k - 1}"})
-        prog.append({**req, "tagk": k})
-        prog.append({"a": "signal", "key": f"done{k}"})
-    plan = []
+        j = sum(1 for a in progs[creator] if a.get("a") == "raw")
+        progs[creator] += [{"a": "await", "key": f"turn{creator}{j}"}, dict(req),
+                           {"a": "signal", "key": f"done{creator}{j}"}]
+        conductor += [{"a": "signal", "key": f"turn{creator}{j}"}, {"a": "await", "key": f"done{creator}{j}"}]
+    # The requesters' labels do not depend on the arrival order (for different creators): the
+    # order is imposed by a third step, the conductor.
+    plan = [{"a": "step", "need": "PLAN", "cmd": "do " + json.dumps(conductor + [{"a": "gate", "name": "C"}])}]
     for name in ("P", "Q"):
         if progs[name]:
             plan.append({"a": "step", "need": "PLAN", "cmd": "do " + json.dumps(
@@ -232,7 +234,7 @@ def run_sequence(seq, rng, mode="free"):
     mon = commitmon.CommitMonitor(checkers=[claims_checker, delta_checker])
     mon.keep_tx = True
     ctl = H.Controller(mode, rng.randrange(1 << 30))
-    b = H.run_build({"njob": 2, "keep_going": True}, ctl=ctl, monitors=[mon], timeout=60)
+    b = H.run_build({"njob": 3, "keep_going": True}, ctl=ctl, monitors=[mon], timeout=60)
     first_job = {}
     for e in b.events:
         if e["type"] == "cmd_start":
@@ -318,7 +320,8 @@ def run_case(case):
                     vio("first declaration judged differently than alone", f"B={kb} {pb}: alone {b_solo}, first {ba[1]}", witness)
                 messages = " ".join(o[2] for v in res.values() for o in v)
                 if conflict_ab != conflict_ba and same and \
-                        "Static tree is a parent directory of an existing static tree" in messages:
+                        ("is a parent directory of static tree" in messages
+                         or "Static tree is a parent directory of an existing static tree" in messages):
                     vio(TREE_PARENT_MECH,
                         f"A={ka} {pa}, B={kb} {pb}: A then B -> {ab}, B then A -> (A {ba[0]}, B {ba[1]})", witness)
                 elif conflict_ab != conflict_ba:
